@@ -104,6 +104,34 @@ def bodyLoop : Nat → Chunk.Chunk → Stream → Nat → Nat → Chunk.Chunk ×
       if r.2.1 = 0 then (r.1, t, r.2.2) else bodyLoop fuel r.1 r.2.2 (t + r.2.1) len
     else (c, t, s)
 
+/-- the length bytes after the 14 fixed header bytes, by class `b[13]` -/
+def readLen (cls : UInt8) (s : Stream) : Except PErr (Nat × Stream) :=
+  if cls = 0 then .ok (0, s)
+  else if cls = 1 then
+    match readExact 1 s with
+    | .ok ([b0], s) => .ok (b0.toNat, s) | .ok _ => .error .ueof | .error e => .error e
+  else if cls = 3 then
+    match readExact 2 s with
+    | .ok ([b0, b1], s) => .ok (ofBe16 b0 b1, s) | .ok _ => .error .ueof | .error e => .error e
+  else if cls = 5 then
+    match readExact 4 s with
+    | .ok ([b0, b1, b2, b3], s) => .ok (ofBe32 b0 b1 b2 b3, s) | .ok _ => .error .ueof
+    | .error e => .error e
+  else if cls = 7 then
+    match readExact 8 s with
+    | .ok ([b0, b1, b2, b3, b4, b5, b6, b7], s) => .ok (ofBe64 b0 b1 b2 b3 b4 b5 b6 b7, s)
+    | .ok _ => .error .ueof | .error e => .error e
+  else .error .invalidType
+
+/-- the payload part of `readBody`: `len` announced bytes into a fresh chunk with `Limit = len` -/
+def readPayload (len : Nat) (s : Stream) : Except PErr (Bytes × Stream) :=
+  if len = 0 then .ok ([], s)
+  else
+    -- `p.Limit = int(p.len)`: a length ≥ 2^63 becomes a negative (= no) limit
+    let lim : Int := if len < 2^63 then (len : Int) else (len : Int) - 2^64
+    let r := bodyLoop cf (s.flatten.length + 2) (Chunk.empty lim) s 0 len
+    if r.2.1 < len then .error .ueof else .ok (r.1.unread, r.2.2)
+
 /-- `Unmarshal(r)` into a fresh packet. -/
 def unmarshal (s : Stream) : Except PErr (Packet × Stream) :=
   match readExact Facts.idSize s with
@@ -113,40 +141,18 @@ def unmarshal (s : Stream) : Except PErr (Packet × Stream) :=
     match readExact 14 s with
     | .error e => .error e
     | .ok ([i, j1, j0, f7, f6, f5, f4, f3, f2, f1, f0, t1, t0, cls], s) =>
-      let job := ofBe16 j1 j0
-      let flags := ofBe64 f7 f6 f5 f4 f3 f2 f1 f0
-      let nt := t0.toNat ||| (t1.toNat <<< 8)
-      let lenR : Except PErr (Nat × Stream) :=
-        if cls = 0 then .ok (0, s)
-        else if cls = 1 then
-          match readExact 1 s with
-          | .ok ([b0], s) => .ok (b0.toNat, s) | .ok _ => .error .ueof | .error e => .error e
-        else if cls = 3 then
-          match readExact 2 s with
-          | .ok ([b0, b1], s) => .ok (ofBe16 b0 b1, s) | .ok _ => .error .ueof | .error e => .error e
-        else if cls = 5 then
-          match readExact 4 s with
-          | .ok ([b0, b1, b2, b3], s) => .ok (ofBe32 b0 b1 b2 b3, s) | .ok _ => .error .ueof
-          | .error e => .error e
-        else if cls = 7 then
-          match readExact 8 s with
-          | .ok ([b0, b1, b2, b3, b4, b5, b6, b7], s) => .ok (ofBe64 b0 b1 b2 b3 b4 b5 b6 b7, s)
-          | .ok _ => .error .ueof | .error e => .error e
-        else .error .invalidType
-      match lenR with
+      match readLen cls s with
       | .error e => .error e
       | .ok (len, s) =>
-        match readTags nt s with
+        -- `int(b[12]) | int(b[11])<<8` tags
+        match readTags (ofBe16 t1 t0) s with
         | .error e => .error e
         | .ok (tags, s) =>
-          if len = 0 then .ok ({ id := i, job := job, flags := flags, tags := tags, dev := dev, payload := [] }, s)
-          else
-            -- `p.Limit = int(p.len)`: a length ≥ 2^63 becomes a negative (= no) limit
-            let lim : Int := if len < 2^63 then (len : Int) else (len : Int) - 2^64
-            let r := bodyLoop cf (s.flatten.length + 2) (Chunk.empty lim) s 0 len
-            if r.2.1 < len then .error .ueof
-            else .ok ({ id := i, job := job, flags := flags, tags := tags, dev := dev,
-                        payload := r.1.unread }, r.2.2)
+          match readPayload cf len s with
+          | .error e => .error e
+          | .ok (pay, s) =>
+            .ok ({ id := i, job := ofBe16 j1 j0, flags := ofBe64 f7 f6 f5 f4 f3 f2 f1 f0, tags := tags,
+                   dev := dev, payload := pay }, s)
     | .ok _ => .error .ueof
 
 end
@@ -160,7 +166,7 @@ def marshalStream (p : Packet) : Bytes :=
 
 section
 variable {S : Type} (P : Prim S)
-/-- `ID.Read` through a `data.Reader` (`io.ReadFull(r, i[:])`) -/
+-- `devRead` = `ID.Read` through a `data.Reader` (`io.ReadFull(r, i[:])`)
 variable (devRead : S → Except PErr (Bytes × S))
 
 def readTagsS : Nat → S → Except PErr (List Nat × S)
